@@ -96,7 +96,7 @@ _G = {}
 
 def model(tier: str, wd):
     cfg = "MC_Transform1D_thorough.cfg" if tier == "thorough" else "MC_Transform1D.cfg"
-    res = tlc.run_tlc("RTransform", cfg, wd, workers=4, timeout=1500).require_ok(cfg)
+    res = tlc.run_tlc("RTransform", cfg, wd, workers=6 if tier == "thorough" else 4, timeout=1500).require_ok(cfg)
     if res.status == "violation":
         raise tlc.MachineryError(
             f"RTransform.tla (Spec4) is not self-consistent: invariant(s) {res.violated} violated; last state {tlc.last_state(res)}")
@@ -172,9 +172,9 @@ def other_rules(tier, rng):
         names.append(name)
     if tier == "quick":
         names = [n for n in names if n in ("GaussLegendre", "ClenshawCurtis", "GaussChebyshev", "GaussLaguerre", "TanhSinh", "UniformInteger")]
-        sizes = [5, 10]
+        sizes = [1, 5, 10]
     else:
-        sizes = [2, 3, 4, 5, 6, 8, 10, 12, 16, 20, 25, 30, 40]
+        sizes = [1, 2, 3, 4, 5, 6, 8, 10, 12, 16, 20, 25, 30, 40]
     out = []
     for name in names:
         for n in sizes:
@@ -183,6 +183,8 @@ def other_rules(tier, rng):
                 g, exc = lib_rule(name, n + 1)
                 if exc is not None:
                     continue
+            if any(nm == name and sz == g.size for nm, sz, _ in out):
+                continue        # (a rule without a one-point version falls back to two points: already there)
             out.append((name, g.size, g))
     # hand-made grids whose node array has an INTEGER dtype (a OneDGrid accepts any array): Simpson and
     # trapezoid on [-1, 1], three integer nodes on [0, inf)
@@ -431,42 +433,66 @@ def judge_grid(out, pre, esfx, trees, wtree, decl, tenv, xs, ws, rdom, got, exc,
     # polynomial, rational, oscillating; one product handed to integrate as two arrays); negative rule
     # weights allowed
     if accepted and not singular.any() and np.all(np.isfinite(pts)) and np.all(np.isfinite(wts)) and not neg \
-            and _G.get("ext") is not None and case.get("integrands", True):
+            and _G.get("ext") is not None and case.get("integrands", True) and family_sample(case):
         integrand_family(out, kb, got, pts, wts, ws, node_exp, weight_exp, node_tol, weight_tol, case)
 
 
 # ---------------------------------------------------------------------------------------------
 # integrands of the specification (Transform1DExt.tla: IntegrandSeq)
 
-def np_eval(t, r):
-    """float64 value of a spec tree in the single variable r at every element of the array r."""
+def np_expr(t):
+    """Python / numpy source text of a spec tree in the single variable r."""
     op = t["op"]
     if op == "c":
-        return np.full(r.shape, int(t["n"]) / int(t["d"]))
+        return f"({int(t['n'])}/{int(t['d'])})"
     if op == "v":
-        return r
+        return "r"
     if op == "neg":
-        return -np_eval(t["a"], r)
+        return f"(-{np_expr(t['a'])})"
     if op == "abs":
-        return np.abs(np_eval(t["a"], r))
+        return f"np.abs({np_expr(t['a'])})"
     if op in ("add", "sub", "mul", "div", "pow"):
-        a, b = np_eval(t["a"], r), np_eval(t["b"], r)
-        return a + b if op == "add" else a - b if op == "sub" else a * b if op == "mul" else a / b if op == "div" else a ** b
+        sym = {"add": "+", "sub": "-", "mul": "*", "div": "/", "pow": "**"}[op]
+        return f"({np_expr(t['a'])} {sym} {np_expr(t['b'])})"
     if op == "powi":
-        return np_eval(t["a"], r) ** int(t["k"])
-    f = {"exp": np.exp, "log": np.log, "sin": np.sin, "cos": np.cos, "sqrt": np.sqrt}.get(op)
-    if f is None:
-        raise tlc.MachineryError(f"np_eval: node {op!r}")
-    return f(np_eval(t["a"], r))
+        return f"({np_expr(t['a'])} ** {int(t['k'])})"
+    if op in ("exp", "log", "sin", "cos", "sqrt"):
+        return f"np.{op}({np_expr(t['a'])})"
+    raise tlc.MachineryError(f"np_expr: node {op!r}")
+
+
+def np_fn(t):
+    """float64 function r (array) -> value of the spec tree at every element (a constant tree broadcasts)."""
+    f = eval("lambda r: " + np_expr(t), {"np": np})     # noqa: S307 - text generated above from a spec tree
+    return lambda r: np.asarray(f(r), dtype=float) + np.zeros(np.shape(r))
+
+
+def np_eval(t, r):
+    return np_fn(t)(np.asarray(r, dtype=float))
+
+
+def family_sample(case):
+    """Which grids get the integrand family: all of them in the quick tier; in the thorough tier (140 000 grids
+    whose nodes and weights are judged one by one anyway) the grids of the rational rules, of the second
+    model and every fourth drawn pair, default trim setting only."""
+    if _G.get("tier") != "thorough":
+        return True
+    tag = str(case.get("tag", ""))
+    if case.get("trim_inf") is False or tag.endswith(":sub"):
+        return False
+    if tag.startswith("random:"):
+        return int(tag.split(":")[1]) % 4 == 0
+    return True
 
 
 def integrand_items(ext):
     """[(name, positive, [(g, dg), ...])]: the integrands of the specification, plus the product of the
     first and the fifth one handed to integrate as two arrays."""
     ig = ext["integrands"]
-    items = [(d["name"], bool(d["positive"]), [(d["g"], d["dg"])]) for d in ig]
+    fn = [(np_fn(d["g"]), np_fn(d["dg"])) for d in ig]
+    items = [(d["name"], bool(d["positive"]), [fn[k]]) for k, d in enumerate(ig)]
     a, b = ig[0], ig[4]
-    items.append((f"({a['name']})*({b['name']}) as two arrays", False, [(a["g"], a["dg"]), (b["g"], b["dg"])]))
+    items.append((f"({a['name']})*({b['name']}) as two arrays", False, [fn[0], fn[4]]))
     return items
 
 
@@ -482,12 +508,15 @@ def integrand_family(out, kb, got, pts, wts, ws, node_exp, weight_exp, node_tol,
     rounding of the sums, 1e-9 sum_i |w'_i g(r_i)|."""
     if not (np.all(np.isfinite(node_exp)) and np.all(np.isfinite(weight_exp))):
         return
+    # magnitudes at which products of three doubles (weight, two integrand factors) cannot overflow
+    if max(float(np.max(np.abs(pts))), float(np.max(np.abs(wts))), float(np.max(np.abs(node_exp))), float(np.max(np.abs(weight_exp)))) > 1e75:
+        return
     nonneg = bool(np.all(np.asarray(ws) >= 0) and np.any(np.asarray(ws) > 0))
     for name, positive, parts in _G["integrand_items"]:
         with np.errstate(all="ignore"):
-            vals = [np.asarray(np_eval(g, pts), dtype=float) for g, _ in parts]
-            dvals = [np.asarray(np_eval(dg, pts), dtype=float) for _, dg in parts]
-            refs = [np.asarray(np_eval(g, node_exp), dtype=float) for g, _ in parts]
+            vals = [g(pts) for g, _ in parts]
+            dvals = [dg(pts) for _, dg in parts]
+            refs = [g(node_exp) for g, _ in parts]
         if not all(np.all(np.isfinite(v)) for v in vals + dvals + refs):
             continue
         val, exc = rtx.call(got.integrate, *vals)
@@ -505,6 +534,8 @@ def integrand_family(out, kb, got, pts, wts, ws, node_exp, weight_exp, node_tol,
         else:
             dabs = np.abs(dvals[0] * vals[1]) + np.abs(vals[0] * dvals[1])
         tol = 1e-9 * max(scale, float(np.sum(np.abs(wts) * gabs))) + 4.0 * float(np.sum(weight_tol * gabs + np.abs(wts) * dabs * node_tol))
+        if not (math.isfinite(tol) and math.isfinite(ref)):
+            continue
         err = abs(float(val) - ref)
         if err <= tol and tol > 0:
             out.sum_ratio = max(out.sum_ratio, err / tol)
@@ -693,7 +724,7 @@ class Ext:
 
 def model_ext(tier: str, wd):
     cfg = "MC_Transform1DExt_thorough.cfg" if tier == "thorough" else "MC_Transform1DExt.cfg"
-    res = tlc.run_tlc("Transform1DExt", cfg, wd, workers=4, timeout=1500).require_ok(cfg)
+    res = tlc.run_tlc("Transform1DExt", cfg, wd, workers=2 if tier == "thorough" else 4, timeout=1500).require_ok(cfg)
     if res.status == "violation":
         raise tlc.MachineryError(
             f"Transform1DExt.tla (Spec5) is not self-consistent: invariant(s) {res.violated} violated; last state {tlc.last_state(res)}")
@@ -899,6 +930,19 @@ def run_chain(out, inst, fenv, expo, lo, hi, make_rule, rule_name, tag, trim, tr
     if expect_dom is None:
         out.skipped_pairs += 1
         return
+    if sing:
+        # an end of the inner interval is a POLE of the outer map: the composition is infinitely
+        # ill-conditioned there, so the case is admissible only if the inner map reproduces that end exactly
+        # in double precision (it does for the dyadic intervals of the specification; a drawn interval may
+        # give 1 - 1 ulp, whose outer image is a huge finite number instead of infinity)
+        try:
+            exact = all(float(mid.domain[k]) == e_ for k, (xend, e_) in enumerate(((-1.0, lo), (1.0, hi))) if xend in sing) and \
+                all(float(m_) == (lo if x_ == -1.0 else hi) for x_, m_ in zip(xs, np.asarray(mid.points, float)) if x_ in sing)
+        except Exception:  # noqa: BLE001
+            exact = False
+        if not exact:
+            out.skipped_pairs += 1
+            return
     tf, exc = rtx.call(rtx.make_tf, inst, fenv, expo, trim)
     if exc is not None:
         out.viol.append((f"transform_1d_grid:{lbl}{esfx}:constructor", f"{type(exc).__name__}: {exc}", case))
